@@ -634,10 +634,33 @@ def py_rules(ck, table):
             e = src_of(e.id)
         return isinstance(e, ast.Call) and ((q.call_name(e) in ("array.array", "array") and len(e.args) == 2 and q.is_const(e.args[0], "B") and q.dotted(e.args[1]) == param) or (q.call_name(e) in ("bytearray", "bytes", "memoryview") and len(e.args) == 1 and q.dotted(e.args[0]) == param))
 
-    xors = [n for n in q.walk_body(ref.node) if (isinstance(n, ast.Assign) and isinstance(n.value, ast.BinOp) and isinstance(n.value.op, ast.BitXor)) or (isinstance(n, ast.AugAssign) and isinstance(n.op, ast.BitXor))]
-    if len(xors) != 1:
+    # the same definition written as one expression: bytes(b ^ mask[i % 4] for i, b in enumerate(data))
+    rets_ = [n for n in q.walk_body(ref.node) if isinstance(n, ast.Return) and n.value is not None]
+    if len(rets_) == 1 and isinstance(rets_[0].value, ast.Call) and q.call_name(rets_[0].value) in ("bytes", "bytearray") and len(rets_[0].value.args) == 1 and isinstance(rets_[0].value.args[0], (ast.GeneratorExp, ast.ListComp)) \
+            and not any(isinstance(n, (ast.For, ast.While)) for n in q.walk_body(ref.node)):
+        g_ = rets_[0].value.args[0]
+        gen = g_.generators[0] if len(g_.generators) == 1 and not g_.generators[0].ifs else None
+        ok_it = gen is not None and q.is_call(gen.iter, "enumerate") and len(gen.iter.args) == 1 and q.dotted(gen.iter.args[0]) == dp and isinstance(gen.target, ast.Tuple) and len(gen.target.elts) == 2 and all(isinstance(t_, ast.Name) for t_ in gen.target.elts)
+        if not ok_it or not (isinstance(g_.elt, ast.BinOp) and isinstance(g_.elt.op, ast.BitXor)):
+            raise AnalysisError("_websocket_mask_python: the single-expression form is not `bytes(b ^ mask[f(i)] for i, b in enumerate(data))`")
+        iv_, bv_ = gen.target.elts[0].id, gen.target.elts[1].id
+        l_, r_ = g_.elt.left, g_.elt.right
+        if isinstance(r_, ast.Name) and r_.id == bv_:
+            l_, r_ = r_, l_
+        if not (isinstance(l_, ast.Name) and l_.id == bv_ and isinstance(r_, ast.Subscript) and q.dotted(r_.value) == mp and q.names_in(r_.slice) == {iv_}):
+            raise AnalysisError("_websocket_mask_python: XOR operands of the single-expression form are not the data byte and mask[f(i)]")
+        try:
+            vals_ = [q.fold(r_.slice, {iv_: k}) for k in range(64)]
+        except q.NotFoldable:
+            raise AnalysisError("_websocket_mask_python: mask index does not fold")
+        ck.ob(R, ref, rets_[0], vals_ == [k % 4 for k in range(64)], "the reference computes data[i] ^ mask[i %% 4] for every i (mask index for i = 0..7: %s)" % vals_[:8])
+        xors_done = True
+    else:
+        xors_done = False
+    xors = [] if xors_done else [n for n in q.walk_body(ref.node) if (isinstance(n, ast.Assign) and isinstance(n.value, ast.BinOp) and isinstance(n.value.op, ast.BitXor)) or (isinstance(n, ast.AugAssign) and isinstance(n.op, ast.BitXor))]
+    if len(xors) != 1 and not xors_done:
         raise AnalysisError("_websocket_mask_python: expected one XOR store statement in a loop, found %d (form not modelled)" % len(xors))
-    ck.ob(R, ref, ref.node, len(xors) == 1, "the reference has one XOR store", construct="xor stores: %d" % len(xors))
+    ck.ob(R, ref, ref.node, len(xors) == 1 or xors_done, "the reference has one XOR store", construct="xor stores: %d" % len(xors))
     for x in xors:
         tgt = x.targets[0] if isinstance(x, ast.Assign) else x.target
         loop = [f for f in q.walk_body(ref.node) if isinstance(f, ast.For) and any(y is x for y in ast.walk(f))]
